@@ -267,6 +267,11 @@ def blocks_to_bytes(
 
             arg_value = args[block_index, instruction_index]
             n_args = instruction._n_args_override or _instrsize(arg_value)
+            # The EXTENDED_ARG prefixes are on the same line as the instruction,
+            # so that the line table covers every code unit (matters for the
+            # length of the last entry on Python 3.10)
+            for i in range(1, n_args):
+                line_mapping.offset_to_line[offset + 2 * i] = instruction.line_number
             # Duplicate semantics of write_op_arg
             # to produce the the right number of extended arguments
             # https://github.com/python/cpython/blob/b2e5794870eb4728ddfaafc0f79a40299576434f/Python/wordcode_helpers.h#L22-L44
